@@ -321,6 +321,83 @@ def closures(ctx, cr):
                        sample={"closure": name, "inverse": inv, "inner": inp, "returns": sorted(ai.fmt_val(x) for x in got)} if inp == "T" else None)
 
 
+def unary_composition(ctx, cr):
+    """unary_operation: the per-value operation handed to record_unary_clause is  inverse(not?(base), prefix_not)  with the
+    base operation of the operator and  not? = operator-level not:  total flip == operator_not XOR prefix_not"""
+    rule = "R-C03-flip-tables"
+    key = EVAL + "unary_operation"
+    CO = "rules::values::CmpOperator"
+    if key not in cr.fns or CO not in cr.adts:
+        ctx.lost(rule, rule + ":unary-composition", key)
+        return
+    ops = [v["name"] for v in cr.adts[CO]["variants"]]
+    base_of = {"Exists": "exists_operation", "Empty": "element_empty_operation", "IsString": "is_string_operation", "IsMap": "is_struct_operation",
+               "IsList": "is_list_operation", "IsBool": "is_bool_operation", "IsInt": "is_int_operation", "IsNull": "is_null_operation",
+               "IsFloat": "is_float_operation"}
+    f = cr.fns[key]
+    for opname, base in base_of.items():
+        if opname not in ops:
+            ctx.lost(rule, "%s:unary-composition:%s" % (rule, opname), "CmpOperator::" + opname)
+            continue
+        bad = []
+        n = 0
+        for op_not in (False, True):
+            for prefix in (False, True):
+                seen = []
+
+                class H(S.StatusHooks):
+                    def role_of(self, a, st, term, callee):
+                        return "child"
+
+                    def extra_call(self, a, st, term, callee, args):
+                        k = callee.get("key", "")
+                        p = M.norm_path(callee.get("path", ""))
+                        if k == EVAL + "not_operation":
+                            return [(("tuple", (("str", "NOT"), a.resolve(st, args[0]))), st.mon)]
+                        if k == EVAL + "inverse_operation":
+                            return [(("tuple", (("str", "INV"), a.resolve(st, args[0]), a.resolve_bool(st, args[1]))), st.mon)]
+                        if k == EVAL + "record_unary_clause":
+                            seen.append(a.deep(st, args[0]))
+                            return [(("sym", "BOXED"), st.mon)]
+                        if p == "std::vec::Vec::is_empty":
+                            return [(("bool", False), st.mon)]
+                        if p.endswith("QueryPart::is_variable"):
+                            return [(("bool", False), st.mon)]
+                        return None
+                h = H(cr, track_records=False)
+                a = ai.AI(cr, h, max_states=400000)
+                cmpv = ("tuple", (("enum", CO, ops.index(opname), ()), ("bool", op_not)))
+                try:
+                    a.run(key, args=[None, cmpv, ("bool", prefix), None, None, None], mon=Mon())
+                except ai.Undecided as e:
+                    bad.append("undecided %s" % e)
+                    continue
+                ctx.states += a.n_states
+                for v in seen:
+                    n += 1
+                    flips = 0
+                    cur = v
+                    ok = True
+                    for _ in range(6):
+                        if cur[0] == "tuple" and cur[1] and cur[1][0] == ("str", "NOT"):
+                            flips += 1
+                            cur = cur[1][1]
+                        elif cur[0] == "tuple" and cur[1] and cur[1][0] == ("str", "INV"):
+                            if cur[1][2][0] != "bool":
+                                ok = False
+                                break
+                            flips += 1 if cur[1][2][1] else 0
+                            cur = cur[1][1]
+                        else:
+                            break
+                    if cur[0] != "fn" or not cur[1].endswith("::" + base):
+                        bad.append("%s is evaluated with %s" % (opname, ai.fmt_val(cur)[:50]))
+                    elif not ok or (flips % 2 == 1) != (op_not != prefix):
+                        bad.append("operator-not=%s prefix-not=%s composes %d flips (expected parity %s)" % (op_not, prefix, flips, op_not != prefix))
+        ctx.ob(rule, "%s:unary-composition:%s" % (rule, opname), not bad and n >= 4, "; ".join(sorted(set(bad))[:3]) or "%d compositions agree" % n, fn=f,
+               sample={"operator": opname, "compositions": n} if opname == "Exists" else None)
+
+
 def comparator_flip(ctx, cr):
     """impl Comparator for (CmpOperator, bool): the mapping closure applied when the operator-level not is set"""
     rule = "R-C03-flip-tables"
@@ -562,6 +639,7 @@ def run(ctx):
     parameterized_call(ctx, cr)
     parser_sets_negation(ctx, cr)
     closures(ctx, cr)
+    unary_composition(ctx, cr)
     comparator_flip(ctx, cr)
     empty_special_case(ctx, cr)
     named(ctx, cr)
